@@ -39,6 +39,7 @@ sanity checks of a hand-written `google.protobuf.Any`, the text of float default
 inf/nan (compared by value), failures of the final `cloneInto` (invalid UTF-8).
 -/
 import PCV.Model.Escape
+import PCV.Model.Utf8
 namespace PCV.Options
 
 /-! ## Schema -/
@@ -64,6 +65,10 @@ structure FieldS where
   removed : Nat
   full : String
   extendee : String
+  /-- string field whose UTF-8 validity the protobuf runtime enforces (declared in a proto3 file) -/
+  utf8 : Bool := false
+  /-- declared in the very file whose options are interpreted -/
+  ownFile : Bool := false
 deriving Repr, Inhabited
 
 structure MsgS where
@@ -71,12 +76,16 @@ structure MsgS where
   short : String
   parent : String
   fields : List FieldS
+  /-- option message_set_wire_format = true -/
+  msgSet : Bool := false
 deriving Repr, Inhabited
 
 structure EnumS where
   full : String
   closed : Bool
   vals : List (String × Int)
+  /-- feature_support of the values: (number, edition_introduced, edition_removed), 0 = unset -/
+  life : List (Int × Nat × Nat) := []
 deriving Repr, Inhabited
 
 structure Schema where
@@ -85,6 +94,10 @@ structure Schema where
   exts : List FieldS
   /-- indexes of File/Message/Field/Oneof/ExtensionRange/Enum/EnumValue/Service/MethodOptions -/
   optIdx : List Nat
+  /-- descriptor.proto was linked from a descriptor proto: the interpreter's working message and the
+      generated options struct have different descriptors, so `cloneInto` goes through
+      Marshal/Unmarshal (and notices strings that are not UTF-8) instead of proto.Merge -/
+  dynDescriptor : Bool := false
 deriving Repr, Inhabited
 
 def Schema.msg (s : Schema) (i : Nat) : MsgS := s.msgs.getD i default
@@ -193,7 +206,7 @@ inductive Err where
   | uninterp | pseudodup | jsontype | jsonext | jsonbrackets | defrepeated | defmsg | defmsglit | defenumtype
   | unkext | extendee | nofield | target | notmsg | reppath | oneof | dup | notrep | range
   | enumname | enumnum | enumneedname | type | anymix | anynotany | anyurl | anylit | anyser
-  | msgfield | colon | validate
+  | msgfield | colon | validate | msgset | utf8 | anyschema
 deriving DecidableEq, Repr, Inhabited
 
 def Err.toString : Err → String
@@ -204,7 +217,7 @@ def Err.toString : Err → String
   | .oneof => "oneof" | .dup => "dup" | .notrep => "notrep" | .range => "range" | .enumname => "enumname"
   | .enumnum => "enumnum" | .enumneedname => "enumneedname" | .type => "type" | .anymix => "anymix"
   | .anynotany => "anynotany" | .anyurl => "anyurl" | .anylit => "anylit" | .anyser => "anyser"
-  | .msgfield => "msgfield" | .colon => "colon" | .validate => "validate"
+  | .msgfield => "msgfield" | .colon => "colon" | .validate => "validate" | .msgset => "msgset" | .utf8 => "utf8" | .anyschema => "anyschema"
 
 /-- keep the first error -/
 def firstErr (a b : Option Err) : Option Err := match a with | some e => some e | none => b
@@ -314,6 +327,14 @@ def checkFieldUsage (target : Nat) (f : FieldS) : Option Err :=
   else if f.targets.contains target then none
   else some .target
 
+/-- the gate in checkFieldUsage for fields of (= extensions of) a message with message-set wire
+    format, which this build of the Go protobuf runtime does not support -/
+def msgSetGate (s : Schema) (f : FieldS) : Option Err :=
+  -- a message-set message has no fields of its own, so only its extensions can be concerned
+  match (if f.extendee != "" then s.findMsg f.extendee else none) with
+  | some i => if (s.msg i).msgSet then some .msgset else none
+  | none => none
+
 /-! ## Interpreter context and results -/
 
 structure Cx where
@@ -323,6 +344,10 @@ structure Cx where
   /-- a resolver is present (linked file); false for InterpretUnlinkedOptions -/
   linked : Bool
 deriving Inhabited
+
+/-- checkFieldUsage: the message-set gate, then the target types -/
+def fieldUsage (cx : Cx) (f : FieldS) : Option Err :=
+  firstErr (msgSetGate cx.sch f) (checkFieldUsage cx.target f)
 
 /-- result of computing a value: `val = none` is Go's invalid `protoreflect.Value` -/
 structure VR where
@@ -422,6 +447,39 @@ def reqL (s : Schema) (mi : Nat) : List PV → Bool
   | v :: r => reqV s mi v && reqL s mi r
 end
 
+def validUtf8Aux : Nat → List UInt8 → Bool
+  | 0, _ => true
+  | _, [] => true
+  | fuel + 1, bs =>
+    let rw := PCV.Utf8.decodeRune bs
+    if rw.2 == 0 || (rw.1 == PCV.Utf8.runeError && rw.2 == 1) then false else validUtf8Aux fuel (bs.drop rw.2)
+
+def validUtf8 (bs : List UInt8) : Bool := validUtf8Aux bs.length bs
+
+/- what proto.Marshal / Unmarshal check when cloneInto converts the working message: strings of
+   fields that enforce UTF-8 -/
+mutual
+def utf8V (s : Schema) (mi : Nat) : PV → Bool
+  | .msg fs => utf8F s mi fs
+  | .many vs => utf8L s mi vs
+  | _ => true
+def utf8F (s : Schema) (mi : Nat) : List (Nat × PV) → Bool
+  | [] => true
+  | (n, v) :: r =>
+    (match s.fieldByNum mi n with
+     | some f =>
+       if f.kind.isMessage then utf8V s f.kind.msgIdx v
+       else if f.utf8 then (match v with
+         | .bytes b => validUtf8 b
+         | .many vs => vs.all (fun x => match x with | .bytes b => validUtf8 b | _ => true)
+         | _ => true)
+       else true
+     | none => true) && utf8F s mi r
+def utf8L (s : Schema) (mi : Nat) : List PV → Bool
+  | [] => true
+  | v :: r => utf8V s mi v && utf8L s mi r
+end
+
 /-- field lookup of messageLiteralValue with the lower-cased group name fallback (only a field
     that looks like a proto2 group may be named by its type name) -/
 def lookupLiteralField (s : Schema) (mi : Nat) (name : String) : Option FieldS :=
@@ -448,6 +506,16 @@ def resolveLiteralExt (cx : Cx) (mi : Nat) (fqn : String) : Except Err FieldS :=
   match (if cx.linked then cx.sch.findExt fqn else none) with
   | none => .error .msgfield
   | some f => if foreignExt cx.sch mi f then .error .extendee else .ok f
+
+/-- the checks on a message named google.protobuf.Any before its expanded form is accepted:
+    singular string type_url = 1 and singular bytes value = 2 -/
+def anySchemaOK (m : MsgS) : Bool :=
+  (match findByNum m.fields 1 with
+   | some f => f.card != .rep && f.kind == .str
+   | none => false) &&
+  (match findByNum m.fields 2 with
+   | some f => f.card != .rep && f.kind == .bytes
+   | none => false)
 
 /-- the part of setOptionField after the value has been computed -/
 def setOne (cx : Cx) (mi : Nat) (pm : PM) (f : FieldS) (r : VR) : SR :=
@@ -503,6 +571,8 @@ def msgLit (cx : Cx) (mi : Nat) (fs : AFs) (n : Nat) (pm : PM) (hadErr : Bool) (
       let err := if n > 1 then firstErr err (some .anymix) else err
       if (cx.sch.msg mi).full != "google.protobuf.Any" then
         msgLit cx mi rest n pm true (firstErr err (some .anynotany))
+      else if !anySchemaOK (cx.sch.msg mi) then
+        msgLit cx mi rest n pm true (firstErr err (some .anyschema))
       else if host != "type.googleapis.com" && host != "type.googleprod.com" then
         msgLit cx mi rest n pm true (firstErr err (some .anyurl))
       else
@@ -516,7 +586,7 @@ def msgLit (cx : Cx) (mi : Nat) (fs : AFs) (n : Nat) (pm : PM) (hadErr : Bool) (
             match r.val with
             | none => msgLit cx mi rest n pm true err
             | some inner =>
-              if !reqV cx.sch ami inner then
+              if !reqV cx.sch ami inner || !utf8V cx.sch ami inner then
                 msgLit cx mi rest n pm true (firstErr err (some .anyser))
               else if !hadErr1 then
                 -- Any.value has no presence: an inner message that serializes to nothing is absent
@@ -529,7 +599,7 @@ def msgLit (cx : Cx) (mi : Nat) (fs : AFs) (n : Nat) (pm : PM) (hadErr : Bool) (
       match resolveLiteralExt cx mi fqn with
       | .error e => msgLit cx mi rest n pm true (firstErr err (some e))
       | .ok f =>
-        let err := firstErr err (checkFieldUsage cx.target f)
+        let err := firstErr err (fieldUsage cx f)
         if !sep && !f.kind.isMessage then
           msgLit cx mi rest n pm true (firstErr err (some .colon))
         else
@@ -541,7 +611,7 @@ def msgLit (cx : Cx) (mi : Nat) (fs : AFs) (n : Nat) (pm : PM) (hadErr : Bool) (
       match lookupLiteralField cx.sch mi nm with
       | none => msgLit cx mi rest n pm true (firstErr err (some .msgfield))
       | some f =>
-        let err := firstErr err (checkFieldUsage cx.target f)
+        let err := firstErr err (fieldUsage cx f)
         if !sep && !f.kind.isMessage then
           msgLit cx mi rest n pm true (firstErr err (some .colon))
         else
@@ -590,7 +660,7 @@ def interpField (cx : Cx) (mi : Nat) (pm : PM) (parts : List NamePart) (v : AV) 
     match resolvePart cx mi p with
     | .error e => ⟨pm, false, some e⟩
     | .ok f =>
-      let uerr := checkFieldUsage cx.target f
+      let uerr := fieldUsage cx f
       match rest with
       | [] =>
         let r := setOptionField cx mi pm f v false
@@ -614,8 +684,40 @@ def interpField (cx : Cx) (mi : Nat) (pm : PM) (parts : List NamePart) (v : AV) 
 def featureFieldOK (edition : Nat) (f : FieldS) : Bool :=
   !(f.intro != 0 && edition < f.intro) && !(f.removed != 0 && edition ≥ f.removed)
 
-/- fields set inside a `features` message (and inside custom feature messages) must be supported
-    in the file's edition -/
+/-- validateEnumValueFeatureSupport: a known value with feature_support must be alive in `edition` -/
+def enumValueOK (e : EnumS) (edition : Nat) (n : Int) : Bool :=
+  match e.life.find? (·.1 == n) with
+  | some (_, intro, removed) => !(intro != 0 && edition < intro) && !(removed != 0 && edition ≥ removed)
+  | none => true
+
+def enumValuesOK (e : EnumS) (edition : Nat) : PV → Bool
+  | .num n => enumValueOK e edition n
+  | .many vs => vs.all (fun v => match v with | .num n => enumValueOK e edition n | _ => true)
+  | _ => true
+
+/-- values of a map field whose value type is enum `e` -/
+def mapEnumValuesOK (e : EnumS) (edition : Nat) : PV → Bool
+  | .many es => es.all (fun en => match en with
+      | .msg fs => (match pmGet fs 2 with | some (.num n) => enumValueOK e edition n | _ => true)
+      | _ => true)
+  | _ => true
+
+/-- the enum-value part of the per-field check inside `features` -/
+def featureEnumOK (s : Schema) (edition : Nat) (f : FieldS) (v : PV) : Bool :=
+  match f.kind with
+  | .enum e => enumValuesOK (s.enum e) edition v
+  | .msg m =>
+    if f.isMap then
+      match findByNum (s.msg m).fields 2 with
+      | some vf => (match vf.kind with
+        | .enum e => mapEnumValuesOK (s.enum e) edition v
+        | _ => true)
+      | none => true
+    else true
+  | _ => true
+
+/- fields set inside a `features` message (and inside custom feature messages) must be supported in
+   the file's edition, their enum values too, and must not be defined in the file itself -/
 mutual
 def featV (s : Schema) (edition : Nat) (mi : Nat) : PV → Bool
   | .msg fs => featF s edition mi fs
@@ -625,7 +727,8 @@ def featF (s : Schema) (edition : Nat) (mi : Nat) : List (Nat × PV) → Bool
   | [] => true
   | (n, v) :: r =>
     (match s.fieldByNum mi n with
-     | some f => featureFieldOK edition f && (if f.kind.isMessage then featV s edition f.kind.msgIdx v else true)
+     | some f => !f.ownFile && featureFieldOK edition f && featureEnumOK s edition f v &&
+                 (if f.kind.isMessage then featV s edition f.kind.msgIdx v else true)
      | none => true) && featF s edition mi r
 def featL (s : Schema) (edition : Nat) (mi : Nat) : List PV → Bool
   | [] => true
@@ -698,10 +801,17 @@ def interpOptions (s : Schema) (m : Mode) (target edition : Nat) (isField custom
     let vfail : Bool := custom && ((!m.lenient && !reqV s mi (.msg msg)) || !featuresOK s edition mi msg)
     if vfail then ⟨opts, uninterpreted, some .validate⟩
     else if m.lenient then
-      -- clone-then-replace: a clone that is not initialized discards the whole pass
+      -- clone-then-replace: a clone that is not initialized discards the whole pass.
+      -- (cloneInto itself was never seen to fail: with the standard descriptor.proto it is a plain
+      -- proto.Merge, and with a descriptor.proto linked from a descriptor proto — `dynDescriptor`,
+      -- Marshal + Unmarshal — the runtime does not reject strings that are not UTF-8 inside the
+      -- dynamic extension values either; see `serializable`)
       if custom && !reqV s mi (.msg msg) then ⟨opts, uninterpreted, none⟩
       else ⟨msg, remain, none⟩
     else ⟨msg, remain, none⟩
+
+/-- whether the resulting options message can be serialized at all (proto3 strings must be UTF-8) -/
+def serializable (s : Schema) (mi : Nat) (pm : PM) : Bool := utf8V s mi (.msg pm)
 
 /-- interpretElementOptions -/
 def interpElem (s : Schema) (m : Mode) (target edition : Nat) (isField custom : Bool) (mi : Nat)
